@@ -635,4 +635,45 @@ theorem tls13_completes_over_secp256k1 :
                       certClient (certServer rsaCred)) (fun p => p.version == 4 && p.group == 22) = true := by
   decide +kernel
 
+/-! ### 6. SRP and anonymous handshakes start from settings capped at TLS 1.2
+
+  `handshakeClientSRP` / `handshakeClientAnonymous` go on with `effectiveClient cs flavour`: the validated
+  settings with maxVersion capped at TLS 1.2 and (3,4) removed from `versions` (there are no such suites in
+  TLS 1.3).  The cap only narrows the caller's policy, so everything proved about `negotiate` for the
+  effective settings holds for the caller's settings as well; and the default pairs now complete. -/
+theorem effectiveClient_inside (cs : Settings) (fl : ClientFlavour) :
+    (effectiveClient cs fl).minVersion = cs.minVersion ∧ (effectiveClient cs fl).maxVersion ≤ cs.maxVersion ∧
+    (∀ w ∈ (effectiveClient cs fl).versions, w ∈ cs.versions) ∧
+    (effectiveClient cs fl).cipherNames = cs.cipherNames ∧ (effectiveClient cs fl).macNames = cs.macNames ∧
+    (effectiveClient cs fl).keyExchangeNames = cs.keyExchangeNames ∧ (effectiveClient cs fl).eccCurves = cs.eccCurves ∧
+    (effectiveClient cs fl).minKeySize = cs.minKeySize ∧ (effectiveClient cs fl).maxKeySize = cs.maxKeySize ∧
+    (fl ≠ .cert → (effectiveClient cs fl).maxVersion ≤ 3) := by
+  unfold effectiveClient
+  split
+  · rename_i h
+    simp only [Bool.and_eq_true, bne_iff_ne, ne_eq, decide_eq_true_eq] at h
+    refine ⟨rfl, by simp only; omega, fun w hw => (List.mem_filter.mp hw).1, rfl, rfl, rfl, rfl, rfl, rfl, fun _ => Nat.le_refl _⟩
+  · rename_i h
+    refine ⟨rfl, Nat.le_refl _, fun _ hw => hw, rfl, rfl, rfl, rfl, rfl, rfl, fun hne => ?_⟩
+    simp only [Bool.and_eq_true, bne_iff_ne, ne_eq, decide_eq_true_eq, not_and, Nat.not_lt] at h
+    exact h hne
+
+/-- regression (2e75152): default SRP and anonymous clients complete with default servers (before, the
+    ClientHello advertised TLS 1.3, the server selected it and no cipher suite could be common) -/
+theorem default_srp_and_anon_pairs_complete :
+    okWith (negotiateFor dflt dflt srpClient srpServer) (fun p => p.version == 3 && srpSuites.contains p.suite) = true ∧
+    okWith (negotiateFor dflt dflt srpClient (srpCertServer rsaCred)) (fun p => p.version == 3 && srpCertSuites.contains p.suite) = true ∧
+    okWith (negotiateFor dflt dflt anonClient anonServer) (fun p => p.version == 3 && isAnonSuite p.suite) = true ∧
+    negotiate dflt dflt srpClient srpServer = .alert .server "insufficient_security" := by
+  refine ⟨?_, ?_, ?_, ?_⟩ <;> decide +kernel
+
+/-- regression (65e20d7): a client offering only srp_sha completes with a server that has a verifier database
+    AND a certificate (filter_for_certificate keeps the SRP suites without server authentication) -/
+theorem srp_sha_client_with_srp_cert_server_completes :
+    okWith (negotiateFor { dflt with keyExchangeNames := ["srp_sha"] } dflt srpClient (srpCertServer rsaCred))
+      (fun p => srpSuites.contains p.suite && p.serverCert == none) = true ∧
+    okWith (negotiateFor { dflt with keyExchangeNames := ["srp_sha"] } dflt srpClient (srpCertServer ecdsaCred))
+      (fun p => srpSuites.contains p.suite) = true := by
+  constructor <;> decide +kernel
+
 end Tls.Neg.C03
